@@ -38,9 +38,10 @@ const (
 
 func vfTranslationConfig() config.ClusterConnConfig {
 	return config.ClusterConnConfig{
-		NamespaceTranslation: config.StringTranslator{Mappings: []config.StringMapping{{Local: vfWLocalNS, Remote: vfWRemoteNS}}},
+		// (operators list every name, also the ones that stay the same: an identity pair comes first in both lists)
+		NamespaceTranslation: config.StringTranslator{Mappings: []config.StringMapping{{Local: "unchanged-ns", Remote: "unchanged-ns"}, {Local: vfWLocalNS, Remote: vfWRemoteNS}}},
 		SearchAttributeTranslation: config.SATranslationConfig{NamespaceMappings: []config.SANamespaceMapping{{Name: vfWLocalNS, NamespaceId: "ns-id",
-			Mappings: []config.SAMapping{{LocalName: "local-attr", RemoteName: "remote-attr"}, {LocalName: "local-attr-2", RemoteName: "remote-attr-2"}}}}},
+			Mappings: []config.SAMapping{{LocalName: "unchanged-attr", RemoteName: "unchanged-attr"}, {LocalName: "local-attr", RemoteName: "remote-attr"}, {LocalName: "local-attr-2", RemoteName: "remote-attr-2"}}}}},
 	}
 }
 
